@@ -621,6 +621,15 @@ func canonLinearCmp(t *Term) *Term {
 		if len(keys) == 1 && ln.coef[keys[0]].Cmp(big.NewInt(1)) == 0 && nonNegative(ln.atoms[keys[0]]) {
 			op, k = nonNegOp(op, k)
 		}
+		if len(keys) == 1 && ln.coef[keys[0]].Cmp(big.NewInt(1)) == 0 && minusOneOrMore(ln.atoms[keys[0]]) && k.Sign() == 0 {
+			// x < 0 ⟺ x == -1 and x >= 0 ⟺ x != -1 for a result that is -1 or an index
+			switch op {
+			case "<":
+				op, k = "==", big.NewInt(-1)
+			case ">=":
+				op, k = "!=", big.NewInt(-1)
+			}
+		}
 		// two atoms a − b: a direct relation between the atoms
 		if len(keys) == 2 && ln.coef[keys[0]].Cmp(big.NewInt(1)) == 0 && ln.coef[keys[1]].Cmp(big.NewInt(-1)) == 0 {
 			a, bb := ln.atoms[keys[0]], ln.atoms[keys[1]]
@@ -649,6 +658,19 @@ func canonLinearCmp(t *Term) *Term {
 		return &Term{Op: "bin", Name: op, V: t.V, Args: []*Term{l, mkConst(k, r.V)}}
 	}
 	return t
+}
+
+// minusOneOrMore: results of the Index family are -1 or a valid index.
+func minusOneOrMore(t *Term) bool {
+	if t.Op != "call" {
+		return false
+	}
+	switch t.Name {
+	case "strings.Index", "strings.LastIndex", "strings.IndexByte", "strings.LastIndexByte", "strings.IndexAny", "strings.IndexRune", "strings.IndexFunc",
+		"bytes.Index", "bytes.LastIndex", "bytes.IndexByte", "bytes.LastIndexByte":
+		return true
+	}
+	return false
 }
 
 func nonNegOp(op string, k *big.Int) (string, *big.Int) {
